@@ -56,6 +56,33 @@ def run(chk):
     core.differential(chk, "ops_images", cases, "ops_images", model_cases=[S.to_model(c) for c in cases],
                       nontrivial=lambda c, r: sum(1 for s in r[0] if s[0] == "ok") >= 2 and any(s[0] == "err" for s in r[0]),
                       oracle=oracle, normalise=S.norm_steps)
+    # a manifest loaded from an older document is a current-version manifest: the uniqueness rule applies to what is added next
+    from suites import docs_legacy as DL
+    Rr = S.reflect()
+    ldocs = [{"doc": DL.gen_images_doc(rng, Rr, version=v)} for v in ["1.0", "1.0", "1.1", "1.2"] for _ in range(10 if chk.tier == "quick" else 100)]
+    ir = core.ImplRunner("ops_images", fn="impl_load_then_add", per_case_timeout=20.0)
+    try:
+        lres = ir.run(ldocs)
+    finally:
+        ir.close()
+    fired = 0
+    for c, r in zip(ldocs, lres):
+        small = {"doc": c["doc"]}
+        if not isinstance(r, list) or not r:
+            chk.violation("harness: %r" % (r,), small, "load_then_add")
+        elif isinstance(r[0], str) and r[0].startswith("load-"):
+            continue
+        elif len(r) > 1:
+            fired += 1
+            if r[1][0] == "accepted":
+                chk.violation("a manifest loaded from a format %s document accepted an image with the identity of %s and different "
+                              "checksums (header.version after load: %r)" % (c["doc"]["header"]["version"], r[1][3], r[0]), small, "load_then_add")
+            elif r[1][0] != "ValueError":
+                chk.violation("add after load raised %s" % r[1][0], small, "load_then_add")
+    chk.add_cases([{"n": i} for i in range(len(ldocs))], [True] * len(ldocs))
+    chk.traces += len(ldocs)
+    chk.obligation("suite:load_then_add", fired > 0, "")
+    chk.record_suite("load_then_add", {"cases": len(ldocs), "adds_after_load": fired})
     # identity of an object == identity of its serialised dictionary
     R = S.reflect()
     imgs = [S.gen_image(rng, R, small=False, idx=i) for i in range(N[chk.tier])]
